@@ -381,6 +381,9 @@ where
 
         if let Some(old_entry) = self.cache.insert(Rc::clone(&key), entry) {
             self.handle_update(key, timestamp, policy_weight, old_entry);
+            // The entry may have grown. Restore the capacity now rather than in the
+            // next call, which could be `contains_key`.
+            self.evict_lru_entries();
         } else {
             let hash = self.hash(&key);
             self.handle_insert(key, hash, policy_weight, timestamp);
